@@ -342,3 +342,248 @@ pub fn gen_roaming(seed: u64, count: usize) -> Vec<String> {
     }
     out
 }
+
+// ---------------------------------------------------------------------------------
+// STRUCT: structured programs (a tiny imperative language compiled to Brainfuck)
+
+struct Emit {
+    out: String,
+    pos: i64,
+}
+
+impl Emit {
+    fn goto(&mut self, cell: i64) {
+        while self.pos < cell {
+            self.out.push('>');
+            self.pos += 1;
+        }
+        while self.pos > cell {
+            self.out.push('<');
+            self.pos -= 1;
+        }
+    }
+    fn add_const(&mut self, cell: i64, k: i64) {
+        self.goto(cell);
+        let ch = if k >= 0 { '+' } else { '-' };
+        for _ in 0..k.abs() {
+            self.out.push(ch);
+        }
+    }
+}
+
+const NV: i64 = 4; // variables live in cells 0..NV, temporaries in NV, NV+1
+
+fn gen_stmt(r: &mut Rng, e: &mut Emit, depth: u32, budget: &mut i32) {
+    if *budget <= 0 {
+        return;
+    }
+    *budget -= 1;
+    let x = r.below(NV as u64) as i64;
+    let mut y = r.below(NV as u64) as i64;
+    if y == x {
+        y = (x + 1) % NV;
+    }
+    let t = NV;
+    let k = *r.pick(&[1i64, 1, 1, 2, 3, -1, -2, 4, 5]);
+    let choice = r.below(if depth >= 2 { 9 } else { 13 });
+    match choice {
+        0 => e.add_const(x, *r.pick(&[1i64, 2, 3, -1, -2, 7, 8, -8])),
+        1 => {
+            e.goto(x);
+            e.out.push_str("[-]");
+        }
+        2 => {
+            // x += k*y, y destroyed
+            e.goto(y);
+            e.out.push('[');
+            e.add_const(x, k);
+            e.add_const(y, -1);
+            e.goto(y);
+            e.out.push(']');
+        }
+        3 | 4 => {
+            // x += k*y preserving y (through t)
+            e.goto(y);
+            e.out.push('[');
+            e.add_const(x, k);
+            e.add_const(t, 1);
+            e.add_const(y, -1);
+            e.goto(y);
+            e.out.push(']');
+            e.goto(t);
+            e.out.push('[');
+            e.add_const(y, 1);
+            e.add_const(t, -1);
+            e.goto(t);
+            e.out.push(']');
+        }
+        5 => {
+            // x = y (copy)
+            e.goto(x);
+            e.out.push_str("[-]");
+            e.goto(y);
+            e.out.push('[');
+            e.add_const(x, 1);
+            e.add_const(t, 1);
+            e.add_const(y, -1);
+            e.goto(y);
+            e.out.push(']');
+            e.goto(t);
+            e.out.push('[');
+            e.add_const(y, 1);
+            e.add_const(t, -1);
+            e.goto(t);
+            e.out.push(']');
+        }
+        6 => {
+            e.goto(x);
+            e.out.push('.');
+        }
+        7 => {
+            e.goto(x);
+            e.out.push(',');
+        }
+        8 => {
+            // x += y * z (z = another variable), via nested preserving loops, depth-limited
+            let z = (y + 1) % NV;
+            if z == x {
+                e.add_const(x, 1);
+                return;
+            }
+            let t2 = NV + 1;
+            e.goto(y);
+            e.out.push('[');
+            e.goto(z);
+            e.out.push('[');
+            e.add_const(x, 1);
+            e.add_const(t2, 1);
+            e.add_const(z, -1);
+            e.goto(z);
+            e.out.push(']');
+            e.goto(t2);
+            e.out.push('[');
+            e.add_const(z, 1);
+            e.add_const(t2, -1);
+            e.goto(t2);
+            e.out.push(']');
+            e.add_const(t, 1);
+            e.add_const(y, -1);
+            e.goto(y);
+            e.out.push(']');
+            e.goto(t);
+            e.out.push('[');
+            e.add_const(y, 1);
+            e.add_const(t, -1);
+            e.goto(t);
+            e.out.push(']');
+        }
+        9 | 10 => {
+            // while x { body; x -= step }
+            let step = *r.pick(&[1i64, 1, 1, 2, 3, -1, 4]);
+            e.goto(x);
+            e.out.push('[');
+            let n = 1 + r.below(3);
+            for _ in 0..n {
+                gen_stmt_no_write(r, e, depth + 1, budget, x);
+            }
+            e.add_const(x, -step);
+            e.goto(x);
+            e.out.push(']');
+        }
+        11 => {
+            // if x { body }; x = 0
+            e.goto(x);
+            e.out.push('[');
+            let n = 1 + r.below(2);
+            for _ in 0..n {
+                gen_stmt_no_write(r, e, depth + 1, budget, x);
+            }
+            e.goto(x);
+            e.out.push_str("[-]]");
+        }
+        _ => {
+            // while x { body }  (body may change x arbitrarily: may diverge)
+            e.goto(x);
+            e.out.push('[');
+            let n = 1 + r.below(3);
+            for _ in 0..n {
+                gen_stmt(r, e, depth + 1, budget);
+            }
+            e.add_const(x, -1);
+            e.goto(x);
+            e.out.push(']');
+        }
+    }
+}
+
+/// A statement that avoids writing the loop counter `ctr` most of the time.
+fn gen_stmt_no_write(r: &mut Rng, e: &mut Emit, depth: u32, budget: &mut i32, ctr: i64) {
+    // try a few times to generate a statement; statements touching ctr are allowed 1 in 4
+    let allow = r.below(4) == 0;
+    for _ in 0..8 {
+        let save_len = e.out.len();
+        let save_pos = e.pos;
+        let save_budget = *budget;
+        let before = r.0;
+        gen_stmt(r, e, depth, budget);
+        if allow {
+            return;
+        }
+        // crude check: did the emitted code visit ctr's cell and modify it?
+        let code = &e.out[save_len..];
+        let mut p = save_pos;
+        let mut touched = false;
+        for ch in code.chars() {
+            match ch {
+                '>' => p += 1,
+                '<' => p -= 1,
+                '+' | '-' | ',' => {
+                    if p == ctr {
+                        touched = true
+                    }
+                }
+                _ => {}
+            }
+        }
+        if !touched {
+            return;
+        }
+        e.out.truncate(save_len);
+        e.pos = save_pos;
+        *budget = save_budget;
+        let _ = before;
+    }
+}
+
+pub fn gen_struct(seed: u64, count: usize) -> Vec<String> {
+    let mut r = Rng::new(seed ^ 0x5717);
+    let mut out: Vec<String> = Vec::new();
+    let mut tries = 0;
+    while out.len() < count && tries < count * 10 {
+        tries += 1;
+        let mut e = Emit { out: String::new(), pos: 0 };
+        // initialise variables: input or small constants
+        for v in 0..NV {
+            match r.below(4) {
+                0 | 1 => {
+                    e.goto(v);
+                    e.out.push(',');
+                }
+                2 => e.add_const(v, *r.pick(&[1i64, 2, 3, 5])),
+                _ => {}
+            }
+        }
+        let mut budget = 3 + r.below(6) as i32;
+        while budget > 0 {
+            gen_stmt(&mut r, &mut e, 0, &mut budget);
+        }
+        for v in 0..NV {
+            e.goto(v);
+            e.out.push('.');
+        }
+        if balanced(&e.out) && e.out.len() < 400 && !out.contains(&e.out) {
+            out.push(e.out);
+        }
+    }
+    out
+}
